@@ -250,6 +250,15 @@ fn exec(c: &Consts, ws: &mut BTreeMap<String, World>, req: &str, out: &mut Out) 
         }
         _ => return bad(),
     };
+    // consent probe (independent of the model): the same instruction with the same accounts but WITHOUT the signature of
+    // its first account (the user / the accepting proposed owner) must be rejected; it runs on a copy, nothing is kept
+    {
+        let mut probe: Vec<Acc> = accs.iter().map(|a| Acc { key: KeyBox { pad: a.key.pad, key: a.key.key }, lamports: a.lamports, buf: a.buf.clone(), len: a.len, owner: a.owner, signer: a.signer, writable: a.writable, exec: a.exec }).collect();
+        probe[0].signer = false;
+        let (pok, _) = call_entry(&mut probe, &data);
+        if pok { out.oracle_fail(&format!("`{}` went through without the signature of the acting user (for accept: the proposed new owner)", t[1]), req); }
+        out.stat("probe.unsigned");
+    }
     let (ok, after) = call_entry(&mut accs, &data);
     let alias = (t[1] == "transfer" || t[1] == "accept") && wb.is_empty();
     if ok && alias { out.oracle_fail("an instruction with the same user account on both sides succeeded", req); }
